@@ -200,7 +200,30 @@ func vfC11Run(t *testing.T, dir string, c *vfC11Case) (violation string, trace [
 		for range c.Clients {
 			done = append(done, <-results)
 		}
-		// load has stopped: let everything run out
+		// load has stopped. Whatever failed for a healthy name failed for reasons of this server's own (a client's budget,
+		// a refused slot): none of that may have become a cached failure that now answers for the name
+		for label, b := range c.Behave {
+			if b != "ok" {
+				continue
+			}
+			for _, n := range []string{"a." + label + ".test.", "b." + label + ".test."} {
+				q := &vfgen.QuerySpec{ID: 7600, Name: n, Qtype: dns.TypeA, Qclass: dns.ClassINET, RD: true, EDNS: true, UDPSize: 1232}
+				n0 := rw.Net.Count()
+				rep := rw.Ask(q, "udp", net.IPv4(203, 0, 113, 98), false)
+				if rep.Msg == nil || rep.Msg.Rcode != dns.RcodeServerFailure || rw.Net.Count() != n0 {
+					continue
+				}
+				if opt := rep.Msg.IsEdns0(); opt != nil {
+					for _, o := range opt.Option {
+						if e, ok := o.(*dns.EDNS0_EDE); ok && e.InfoCode == dns.ExtendedErrorCodeCachedError {
+							fail("right after the load, %s (its authority answers every question) is answered SERVFAIL from a cached failure (%q) without any upstream traffic: a refusal or expiry local to another client became shared state", n, e.ExtraText)
+						}
+					}
+				}
+				stats["post-load-cached-failure-probe"]++
+			}
+		}
+		// let everything run out
 		time.Sleep(2*c.Timeout + 40*time.Second)
 		synctest.Wait()
 		for _, d := range done {
